@@ -13,6 +13,7 @@ import (
 	"os"
 	"regexp"
 	"sort"
+	"strconv"
 	"strings"
 
 	"golang.org/x/tools/go/packages"
@@ -47,6 +48,7 @@ type Program struct {
 	// Renames: functions of the reference tree that no longer exist under their name but have exactly one
 	// new function with the same package, receiver and signature: the new function answers to the old name.
 	renamed     map[*ssa.Function]string
+	owner       map[*ssa.Function]string // see FuncName
 	RenameNotes []string
 	storeCache map[*ssa.Function]map[string]bool
 }
@@ -138,18 +140,20 @@ func loadProgram(repo, goarch string) (*Program, error) {
 			}
 		}
 	}
+	curProg = p
 	p.resolveTypeRenames()
 	p.resolveMemberRenames()
 	p.resolveRenames()
 	p.resolveFieldRenames()
 	p.resolveParamRenames()
-	sort.Slice(p.Funcs, func(i, j int) bool { return p.FuncName(p.Funcs[i]) < p.FuncName(p.Funcs[j]) })
+	p.computeOwners()
+	sort.Slice(p.Funcs, func(i, j int) bool { return p.rawName(p.Funcs[i]) < p.rawName(p.Funcs[j]) })
 	return p, nil
 }
 
 // structFields enumerates the fields of the library's named struct types as "Type.field" ("pkg.Type.field"
 // outside the main package) with their type strings.
-func (p *Program) structFields(visit func(key string, typ string, v *types.Var)) {
+func (p *Program) structFields(visit func(key string, typ string, v *types.Var, idx int)) {
 	for _, path := range libPatterns {
 		pk := p.Pkgs[path]
 		sc := pk.Types.Scope()
@@ -167,7 +171,7 @@ func (p *Program) structFields(visit func(key string, typ string, v *types.Var))
 				prefix = pk.Name + "."
 			}
 			for i := 0; i < st.NumFields(); i++ {
-				visit(prefix+typeNameOf(tn)+"."+st.Field(i).Name(), refTypeString(st.Field(i).Type()), st.Field(i))
+				visit(prefix+typeNameOf(tn)+"."+st.Field(i).Name(), refTypeString(st.Field(i).Type()), st.Field(i), i)
 			}
 		}
 	}
@@ -180,12 +184,13 @@ func (p *Program) resolveFieldRenames() {
 	type fr struct {
 		key, typ string
 		v        *types.Var
+		idx      int
 	}
 	var fresh []fr
-	p.structFields(func(key, typ string, v *types.Var) {
+	p.structFields(func(key, typ string, v *types.Var, idx int) {
 		present[key] = true
 		if _, ok := knownFields[key]; !ok {
-			fresh = append(fresh, fr{key, typ, v})
+			fresh = append(fresh, fr{key, typ, v, idx})
 		}
 	})
 	if len(fresh) == 0 {
@@ -193,8 +198,12 @@ func (p *Program) resolveFieldRenames() {
 	}
 	owner := func(key string) string { return key[:strings.LastIndex(key, ".")] }
 	gone := map[string][]string{} // owner|type → old keys
-	for key, typ := range knownFields {
-		if !present[key] && present != nil {
+	refIdx := map[string]int{}
+	for key, it := range knownFields {
+		i := strings.Index(it, "|")
+		typ := it[i+1:]
+		refIdx[key], _ = strconv.Atoi(it[:i])
+		if !present[key] {
 			gone[owner(key)+"|"+typ] = append(gone[owner(key)+"|"+typ], key)
 		}
 	}
@@ -204,10 +213,14 @@ func (p *Program) resolveFieldRenames() {
 		cand[k] = append(cand[k], f)
 	}
 	for k, fs := range cand {
-		if olds := gone[k]; len(fs) == 1 && len(olds) == 1 {
-			old := olds[0]
-			fieldAlias[fs[0].v] = old[strings.LastIndex(old, ".")+1:]
-			p.RenameNotes = append(p.RenameNotes, fmt.Sprintf("field %s of the reference tree is gone; %s has the same struct and type and is analysed in its place", old, fs[0].key))
+		// several fields of one type renamed together are paired in declaration order
+		if olds := gone[k]; len(fs) == len(olds) {
+			sort.Slice(olds, func(i, j int) bool { return refIdx[olds[i]] < refIdx[olds[j]] })
+			sort.Slice(fs, func(i, j int) bool { return fs[i].idx < fs[j].idx })
+			for i, old := range olds {
+				fieldAlias[fs[i].v] = old[strings.LastIndex(old, ".")+1:]
+				p.RenameNotes = append(p.RenameNotes, fmt.Sprintf("field %s of the reference tree is gone; %s has the same struct and type and is analysed in its place", old, fs[i].key))
+			}
 		}
 	}
 	sort.Strings(p.RenameNotes)
@@ -236,7 +249,7 @@ func paramsOf(fn *ssa.Function) (ps, fvs []ssa.Value) {
 // same length and the same types position by position keeps the reference names for them.
 func (p *Program) resolveParamRenames() {
 	for _, fn := range p.Funcs {
-		name := p.FuncName(fn)
+		name := p.rawName(fn)
 		ps, fvs := paramsOf(fn)
 		for _, pair := range []struct {
 			now []ssa.Value
@@ -302,7 +315,7 @@ func (p *Program) resolveRenames() {
 		if f.Parent() != nil {
 			continue
 		}
-		n := p.FuncName(f)
+		n := p.rawName(f)
 		present[n] = true
 		if !knownFuncs[n] {
 			fresh = append(fresh, f)
@@ -324,7 +337,7 @@ func (p *Program) resolveRenames() {
 	}
 	for sig, fs := range freshBySig {
 		if olds := bySig[sig]; len(fs) == 1 && len(olds) == 1 {
-			now := p.FuncName(fs[0])
+			now := p.rawName(fs[0])
 			p.renamed[fs[0]] = olds[0]
 			p.RenameNotes = append(p.RenameNotes, fmt.Sprintf("function %s of the reference tree is gone; %s (%s) has the same receiver and signature and is analysed in its place", olds[0], now, p.FuncPos(fs[0])))
 		}
@@ -348,9 +361,90 @@ func (p *Program) isLib(fn *ssa.Function) bool {
 	return ok
 }
 
-// FuncName gives the short stable name used in specs and reports:
-// "Conn.writeFrame", "readFrameHeader", "wsjson.read", "Conn.CloseRead$1".
+// FuncName is the name rules use for a function: its own name when it is part of the reference tree; for a helper
+// introduced later (not in knownFuncs) that is reached from exactly one reference function, that function's name —
+// code moved into a helper still belongs to the function it was extracted from ("Conn.writeFrame" for a helper
+// called only by Conn.writeFrame, "Conn.writeFrame$1" for a closure in it). rawName is the function's own name.
 func (p *Program) FuncName(fn *ssa.Function) string {
+	if fn == nil {
+		return "<nil>"
+	}
+	if fn.Parent() != nil {
+		name := fn.Name()
+		if i := strings.LastIndex(name, "$"); i >= 0 {
+			return p.FuncName(fn.Parent()) + name[i:]
+		}
+		return p.FuncName(fn.Parent()) + "$" + name
+	}
+	if o, ok := p.owner[fn]; ok {
+		return o
+	}
+	return p.rawName(fn)
+}
+
+// computeOwners attributes every top-level library function that is not part of the reference tree to the
+// reference function (or closure) it is reached from, when that is unique.
+func (p *Program) computeOwners() {
+	p.owner = map[*ssa.Function]string{}
+	callers := map[*ssa.Function]map[*ssa.Function]bool{}
+	for _, f := range p.Funcs {
+		for _, b := range f.Blocks {
+			for _, in := range b.Instrs {
+				if ci, ok := in.(ssa.CallInstruction); ok {
+					if callee := ci.Common().StaticCallee(); callee != nil && p.isLib(callee) {
+						if callers[callee] == nil {
+							callers[callee] = map[*ssa.Function]bool{}
+						}
+						callers[callee][f] = true
+					}
+				}
+			}
+		}
+	}
+	isRef := func(f *ssa.Function) bool { return f.Parent() != nil || knownFuncs[p.rawName(f)] }
+	for _, f := range p.Funcs {
+		if isRef(f) {
+			continue
+		}
+		owners := map[string]bool{}
+		seen := map[*ssa.Function]bool{}
+		var rec func(g *ssa.Function)
+		rec = func(g *ssa.Function) {
+			if seen[g] {
+				return
+			}
+			seen[g] = true
+			if g != f && isRef(g) {
+				// a closure inside another helper is attributed through that helper
+				root := g
+				for root.Parent() != nil {
+					root = root.Parent()
+				}
+				if root != g && !knownFuncs[p.rawName(root)] {
+					rec(root)
+					return
+				}
+				owners[p.rawName(g)] = true
+				return
+			}
+			for c := range callers[g] {
+				rec(c)
+			}
+		}
+		rec(f)
+		if len(owners) == 1 {
+			for o := range owners {
+				p.owner[f] = o
+				p.RenameNotes = append(p.RenameNotes, fmt.Sprintf("function %s (%s) is not part of the reference tree and is reached only from %s: its sites are attributed to %s", p.rawName(f), p.FuncPos(f), o, o))
+			}
+		}
+	}
+	sort.Strings(p.RenameNotes)
+}
+
+// rawName gives the short stable name used in specs and reports:
+// "Conn.writeFrame", "readFrameHeader", "wsjson.read", "Conn.CloseRead$1".
+func (p *Program) rawName(fn *ssa.Function) string {
 	if fn == nil {
 		return "<nil>"
 	}
@@ -361,9 +455,9 @@ func (p *Program) FuncName(fn *ssa.Function) string {
 		// anonymous: parent$N
 		name := fn.Name()
 		if i := strings.LastIndex(name, "$"); i >= 0 {
-			return p.FuncName(fn.Parent()) + name[i:]
+			return p.rawName(fn.Parent()) + name[i:]
 		}
-		return p.FuncName(fn.Parent()) + "$" + name
+		return p.rawName(fn.Parent()) + "$" + name
 	}
 	prefix := ""
 	if fn.Pkg != nil && fn.Pkg.Pkg.Path() != modPath {
@@ -390,6 +484,9 @@ func typeShort(t types.Type) string {
 	}
 	return t.String()
 }
+
+// curProg is the program being analysed (programs are loaded and analysed one after the other).
+var curProg *Program
 
 // typeAlias: named types renamed w.r.t. the reference tree answer to their old name (see resolveTypeRenames).
 var typeAlias = map[*types.TypeName]string{}
@@ -604,7 +701,7 @@ func (p *Program) resolveTypeRenamesOnce() (progress bool) {
 // "Conn.CloseRead$1"). Unresolved anchors are recorded.
 func (p *Program) Func(name string) *ssa.Function {
 	for _, f := range p.Funcs {
-		if p.FuncName(f) == name {
+		if p.rawName(f) == name {
 			return f
 		}
 	}
@@ -615,7 +712,7 @@ func (p *Program) Func(name string) *ssa.Function {
 // FuncOpt is Func without recording a failure.
 func (p *Program) FuncOpt(name string) *ssa.Function {
 	for _, f := range p.Funcs {
-		if p.FuncName(f) == name {
+		if p.rawName(f) == name {
 			return f
 		}
 	}
